@@ -15,20 +15,20 @@ CHECKS = {
  "C02": ("proof", "6.C02", "per-program theorems Facto.bundle_end_to_end / observed_bundle_end_to_end / wiresum_end_to_end: the verified validator covers bundle literals (incl. shared constant combinators), bundle OP scalar, filters, gates, any/all, selections; accepted programs carry exactly the denoted members for ALL inputs (pointwise equality of wire sums: no member missing, none foreign); rejected programs fall back to failing-input search + known-finding classifier"),
  "C03": ("proof", "6.C03", "per-program one-tick theorem Facto.gated_cell_end_to_end on the decoded blueprint: the circuit is cut at the cell gates, the rest validated by the kernel-verified checkAll on the cut circuit, the gates matched against the write rule (gatedCellIs); in every state settled around the cells the next content is WriteRule.next (data / hold / clear) for all inputs and all contents; stream corollaries cell_follows / cell_holds / cell_zero_before_write; transients between settled states and unproved cells: quasi-static history simulation"),
  "C04": ("proof", "6.C04", "per-program theorem Facto.ring_end_to_end at EVERY tick of the run from the all-zero state: a ring of L arithmetic combinators matched against the written expression (ringCellIs) satisfies value(t+L) = f(value(t)), f = the source expression with the cell holding value(t); no settling hypothesis; latency-1 self-reading combinators also by always_cell_end_to_end; unproved cells and the two-gate (non-optimised) form: latency search by simulation, both optimisation settings"),
- "C05": ("proof", "6.C05", "per-program one-tick theorems Facto.latch_cell_end_to_end / latch_value_end_to_end for set-priority latches (standard rows and inlined comparisons, value 1 or a constant through a multiplier) on the cut circuit; translated _invert_comparison correct (C05_invert_correct); negations rs_latch_not_reset_priority / rs_inlined_not_reset_priority explain why no reset-priority latch is provable (F22); others and transients: history simulation with threshold-aware inputs"),
+ "C05": ("proof", "6.C05", "per-program one-tick theorems Facto.latch_cell_end_to_end / latch_value_end_to_end for both priorities (latchIs ... setPrio: set-priority rows (feedback AND NOT r) OR s and s OR (feedback AND NOT r); reset-priority rows (s AND NOT r) OR (feedback AND NOT r)), standard rows and inlined comparisons, value 1 or a constant through a multiplier, on the cut circuit; LatchExample: a concrete reset-priority latch is accepted for reset and rejected for set priority; translated _invert_comparison correct (C05_invert_correct); rs_latch_repaired; transients: history simulation with threshold-aware inputs (F32: set computed by a longer chain than reset). Partial: signal-valued v is outside the reference model (it keeps the latch state in the cell value)"),
  "C06": ("proof", "6.C06", "per-program theorem Facto.enable_end_to_end: for accepted programs the circuit condition of every placed entity is true exactly when the assigned expression is positive, for ALL input values and ALL contents of the containers read through .output (declared sources), covering value>0 wiring and inlined comparison / any / all / negation; fallback: failing-input search"),
  "C07": ("proof", "6.C07", "Lean M5 (behaviour is a function of the decoded logical circuit) + canonical form; correspondence: planned placement properties and connections vs Lean decoding of the printed text, and all CLI entry points decoded and compared"),
- "C08": ("proof", "6.C08", "Lean theorems: footprint-disjoint => collision-disjoint, tile/centre round trip, relay invariant on the pattern-translated RelayNode; correspondence: exact geometric check of every printed blueprint over the option x forced-solver-outcome matrix"),
+ "C08": ("proof", "6.C08", "Lean theorems: footprint-disjoint => collision-disjoint, tile/centre round trip, relay invariant on the pattern-translated RelayNode; correspondence: exact geometric check of every printed blueprint over the option x forced-solver-outcome matrix (normal, near-zero budget, first attempts failing, fallback, and a deterministic feasible-but-stretched outcome for memory cells)"),
  "C09": ("proof", "6.C09", "Lean tile/centre theorem + reference elaborator placements (loops, calls, int arithmetic); correspondence: multiset of user entities in the printed blueprint"),
  "C10": ("proof", "6.C10", "both builds are related to the same denotation: when the verified validator accepts both (scalar_end_to_end / bundle_end_to_end), they are equal to it and hence to each other for ALL inputs; otherwise correspondence by simulation on CSE-stress and C01-C06 generators with optimisation on and off; stateful programs by history search"),
  "C11": ("proof", "6.C11", "36 Lean theorems on the folders translated from the current source (agreement with the combinator ALU per operator, negations with witnesses for / and %); translator correspondence on 30k operand pairs; per program: a folded constant in the blueprint is accepted by the verified validator iff it equals constVal (Facto.constVal_sound: the node's denotation for every valuation), then scalar_end_to_end covers every folding site of accepted programs; others: simulation"),
  "C12": ("proof", "6.C12", "source level: Facto.embed_sound (each program sits, node for node, inside the interleaving: checked per triple by the driver's embed mode, up to implicit type names via retype_nodeVal); circuit level: the joint build validated by the kernel-verified validator whose isolation premises (read_isolated / carries_sound) say an accepted operand sees exactly its own producers; fallback: simulation of P, Q and an interleaving of renamed-apart programs"),
- "C13": ("proof", "6.C13", "source level: Facto.retype_nodeVal / retype_bundle (any assignment of signal types to scalar values denotes the same; applied on every run to the compiler's actual choice); circuit level: validation with the compiler's naming by the kernel-verified matcher (isolation = not a signal already on the same wire); static freshness rules on the compiler's signal map; fallback: simulation"),
+ "C13": ("proof", "6.C13", "source level, in full: Facto.rename_evalNodes - for EVERY injective renaming of signal names the renamed program on renamed inputs denotes, node for node, the renamed signal maps (scalar values unchanged: rename_argVal; bundles renamed: rename_bundle; cells: rename_next); the compiler's choice is a composition of transpositions (swaps_injective). Circuit level: every build is validated against renameNodes rho P by the kernel-verified matcher, and scalar_end_to_end_renamed / bundle_end_to_end_renamed(_foreign) state the result about the program as written; the collision case is exactly what the isolation premises and the static clash check reject; fallback: simulation"),
  "C14": ("proof", "6.C14", "Lean theorems: errors propagate through any prefix / loop body (violation anywhere rejected), reserved literal rejected in every state; correspondence: accept/reject and error class on one-violation mutants in 26 rule instances x 4 contexts, CLI sample"),
- "C15": ("proof", "6.C15", "reference elaborator (call = substitution with fresh copies, lexical scoping); the compiled blueprint is validated against the inlined Core program by the kernel-verified validator (scalar_end_to_end: all inputs); fallback simulation"),
+ "C15": ("proof", "6.C15", "reference elaborator (call = substitution with fresh copies of everything the body declares, lexical scoping); the compiled blueprint is validated against the inlined Core program by the kernel-verified validator (scalar_end_to_end / gated_cell_end_to_end / latch_cell_end_to_end: all inputs); generators cover local memories per call site, shadowing, free names vs caller's locals, nested same-named entities, projections of parameters; regression corpus of the repaired scoping defects; fallback simulation"),
  "C16": ("proof", "6.C16", "Lean theorem C16_iteration_values on the translated get_iteration_values (termination is an obligation) + membership characterisation; the elaborator unrolls over it and the compiled blueprint is validated against the unrolled Core program by the kernel-verified validator (scalar_end_to_end / enable_end_to_end: all inputs); fallback simulation"),
  "C17": ("proof", "6.C17", "25 Lean theorems on lib/math.facto regenerated through the real parser (kernel-checked elaboration + contracts for all int32 arguments); hand model of preprocess_imports with differential expansion check from three working directories; pasted twins"),
- "C18": ("proof", "6.C18", "Lean theorems grid_covers (1-D and 2-D) and the nearest-neighbour counter-model; correspondence: exact coverage / copper connectivity / pole type check of every printed blueprint"),
+ "C18": ("proof", "6.C18", "Lean theorems grid_covers (1-D and 2-D) and the nearest-neighbour counter-model; correspondence: exact coverage / copper connectivity / pole type check of every printed blueprint; an unpowered consumer is classified against the pole grid as laid out before trimming (captured in-process): only the two listed causes (F31 far-end shortfall / stragglers, F41 hole at a user-placed entity) are findings, a trimmed covering pole or a consumer before the start of the grid is a violation"),
  "C19": ("proof", "6.C19", "Lean M5 run_congr_of_same_circuit + canonical_ignores_position; correspondence: canonical logical circuits across hash seeds, solver budgets, prior compilations, working directories, concurrent load"),
  "C20": ("proof", "6.C20", "outputs computed by the reference elaborator; correspondence: labels, anchors and observed anchor values of every unconsumed name, labelled inputs"),
 }
